@@ -19,7 +19,7 @@ pids=()
 for w in $(seq 1 "$W"); do
   mkdir -p "$S/run/a$w"
   HV_PROP=$ID HV_STAGE=$STAGE HV_OUT="$S/run/out" VERIF_DIR="$HERE" "$BIN" "$S/run/corpus" -artifact_prefix="$S/run/a$w/" \
-     -runs="$RUNS" -seed="$w" -max_len="${TF_MAXLEN:-1000}" -len_control=0 -timeout=60 -print_final_stats=1 >"$S/run/log$w" 2>&1 &
+     -runs="$RUNS" -seed="${TF_SEED:-$w}" -max_len="${TF_MAXLEN:-1000}" -len_control=0 -timeout=60 -print_final_stats=1 >"$S/run/log$w" 2>&1 &
   pids+=($!)
 done
 rc=0
